@@ -7,4 +7,7 @@ GReq2 == (1 :> << 1, 2 >>) @@ (2 :> << 2 >>)
 GNext == /\ \E a \in Actors : StepOf(a)
          /\ PrintT(<< "SCRIPT", ToJson(hist') >>)
 GSpec == Init /\ [][GNext]_vars
+\* with the collector: passes over one table only (the harness prepares collectable deletions in exactly that table)
+GNextGC == GNext /\ Cardinality(gcreq') <= 1
+GSpecGC == Init /\ [][GNextGC]_vars
 =============================================================================
